@@ -80,6 +80,19 @@ CORPUS = [
         {'k': 'gap2d', 'src': 5}, {'k': 'flatten', 'src': 6},
         {'k': 'linear', 'src': 7, 'cin': 4, 'cout': 2, 'bias': True})},
         'style': 'dyadic', 'single': True, 'names': ['params'], 'full_cost': True, 'exclude': []}),
+    # a cost-bearing layer left unconverted (stem excluded by name), wrapper built with full_cost=False: full_cost is
+    # switched on (and off again) after construction
+    ('excluded-stem-full-cost-set-later', {'spec': {'dim': 1, 'input_shape': [3, 12], 'out': [9], 'productions': ['corpus'], 'nodes': _n(
+        {'k': 'in', 'shape': [3, 12]},
+        {'k': 'pad1d', 'src': 0, 'left': 2},
+        {'k': 'conv1d', 'src': 1, 'cin': 3, 'cout': 6, 'ks': 3, 'dil': 1, 'stride': 1, 'groups': 1, 'bias': True},
+        {'k': 'relu', 'src': 2},
+        {'k': 'pad1d', 'src': 3, 'left': 4},
+        {'k': 'conv1d', 'src': 4, 'cin': 6, 'cout': 5, 'ks': 5, 'dil': 1, 'stride': 1, 'groups': 1, 'bias': False},
+        {'k': 'bn1d', 'src': 5, 'c': 5},
+        {'k': 'gap1d', 'src': 6}, {'k': 'flatten', 'src': 7},
+        {'k': 'linear', 'src': 8, 'cin': 5, 'cout': 3, 'bias': True})},
+        'style': 'dyadic', 'single': False, 'full_cost': False, 'exclude': ['layers.n2']}),
     # rectangular output maps (20x12 and 10x6), a non-square kernel: metrics that distinguish rows from columns
     ('rectangular-output-map', {'spec': {'dim': 2, 'input_shape': [2, 20, 12], 'out': [7], 'productions': ['corpus'], 'nodes': _n(
         {'k': 'in', 'shape': [2, 20, 12]},
@@ -142,6 +155,11 @@ def composed_expr(o):
 
 def coq_case_expr(o):
     return 'run_cost [%s] [%s] %s' % ('; '.join(coq_layer(L) for L in o['layers']), '; '.join(coq_mask(L) for L in o['layers']), coq(bool(o['full_cost'])))
+
+
+def coq_case_expr_other(o):
+    """the same case with the OTHER value of full_cost (for the flags changed after construction)"""
+    return 'fst (fst (fst (run_cost [%s] [%s] %s)))' % ('; '.join(coq_layer(L) for L in o['layers']), '; '.join(coq_mask(L) for L in o['layers']), coq(not bool(o['full_cost'])))
 
 
 # ----------------------------------------------------------------------------- oracle on the implementation
@@ -232,6 +250,38 @@ def oracle(o):
                             % (label, n, val, o['pruned']['disc'].get(n), ep, o.get('dw_pruned'), o.get('switches'))))
             if label != 'rewrapped' and n in o['pruned']['cont'] and not same_float(obs['cont'][n], o['pruned']['cont'][n]):
                 out.append(('cost-%s-changes-continuous-cost:%s' % (label, n), '%s: continuous %s = %r, before %r' % (label, n, obs['cont'][n], o['pruned']['cont'][n])))
+    # --- full_cost / discrete_cost changed after construction: the cost for the CURRENT flags
+    fk = lambda f: 'full' if f else 'nas'
+    for rec in o.get('flips', []):
+        lab = '%s:full_cost=%s,discrete_cost=%s' % (rec['phase'], rec['full'], rec['disc'])
+        if 'exc' in rec:
+            out.append(('cost-raises-after-flag-change:' + rec['phase'], '%s: %s' % (lab, rec['exc'])))
+            continue
+        if rec['flag_full_read_back'] != rec['full'] or rec['flag_disc_read_back'] != rec['disc']:
+            out.append(('flag-not-kept-after-assignment', '%s: read back full_cost=%s discrete_cost=%s' % (lab, rec['flag_full_read_back'], rec['flag_disc_read_back'])))
+        for n, val in rec['costs'].items():
+            if rec['phase'] == 'open':
+                exp = o['orig_plain_by'][fk(rec['full'])][n]
+                if (val != exp) if rec['disc'] else (not close(val, Fraction(exp), REL_CONT)):
+                    out.append(('cost-after-flag-change-differs-from-original:%s' % n, 'before pruning, %s set after construction (built with full_cost=%s): %s = %r, original network (%s layers) %r; layers left unconverted: %s'
+                                % (lab, o['full_cost'], n, val, 'all' if rec['full'] else 'NAS-able', exp, [L['name'] for L in o.get('layers', []) if not L['search']])))
+            elif rec['disc']:
+                exp = o['exp_plain_by'][fk(rec['full'])][n]
+                if val != exp:
+                    explained = bool(deg) and val == o['exp_plain_generic_by'][fk(rec['full'])][n]
+                    key = ('dw-degenerate-1to1:' + n) if explained else ('cost-after-flag-change-differs-from-exported:%s' % n)
+                    out.append((key, 'after pruning, %s set after construction (built with full_cost=%s): discrete %s = %r, exported network from scratch (%s layers) %r'
+                                % (lab, o['full_cost'], n, val, 'all' if rec['full'] else 'NAS-able', exp)))
+    for rec in o.get('noauto', []):
+        for n, val in rec['costs'].items():
+            if n.endswith('/get_cost'):
+                continue
+            exp = o['orig_plain_by']['full'][n] if rec['full'] else 0.0
+            if val != exp or rec['costs_cont'][n] != exp:
+                out.append(('cost-without-autoconversion-differs-from-original:%s' % n, 'autoconvert_layers=False (no NAS-able layer), full_cost=%s set after construction: %s = %r / %r, expected %r'
+                            % (rec['full'], n, val, rec['costs_cont'][n], exp)))
+    if 'noauto_exc' in o:
+        out.append(('cost-without-autoconversion-raises', o['noauto_exc']))
     if 'params' in names:
         if o['pruned']['disc']['params'] != o['exp_numel']:
             out.append(('params-differs-from-numel', 'discrete params cost %r, exported conv/linear parameters have %d elements' % (o['pruned']['disc']['params'], o['exp_numel'])))
@@ -247,7 +297,7 @@ def _replay_dict(o):
     r = {'case': {'seed': o['seed'], 'opts': dict(o.get('opts') or {})}, 'arch': o.get('arch')}
     if 'spec' in (o.get('opts_full') or {}):
         r['case']['opts']['spec'] = o['opts_full']['spec']
-    for k in ('names', 'single', 'full_cost', 'style', 'exclude', 'open', 'pruned', 'respec', 'rewrap', 'rewrap_exc', 'dw_pruned', 'switches', 'orig_plain', 'exp_plain', 'exp_ref', 'orig_ref', 'exp_plain_generic', 'degenerate', 'exp_numel', 'reimport', 'trace'):
+    for k in ('names', 'single', 'full_cost', 'style', 'exclude', 'open', 'pruned', 'respec', 'rewrap', 'rewrap_exc', 'dw_pruned', 'switches', 'flips', 'noauto', 'noauto_exc', 'orig_plain_by', 'exp_plain_by', 'orig_plain', 'exp_plain', 'exp_ref', 'orig_ref', 'exp_plain_generic', 'degenerate', 'exp_numel', 'reimport', 'trace'):
         if k in o:
             r[k] = o[k]
     r['layers'] = [{k: L.get(k) for k in ('name', 'kind', 'cin', 'cout', 'groups', 'ks', 'search', 'summary', 'sites')} for L in o.get('layers', [])]
@@ -261,7 +311,7 @@ def run(ctx):
     built = ctx.build()
     cg.note(ctx, built, rej)
     ctx.rule = ('grammar architectures (gen_arch productions + `layer invoked twice` with equal / different output sizes at the two call sites; 1-D causal and 2-D) under PIT; '
-                'cost = one of / a dictionary of params, params_no_bias, ops, ops_no_bias, gap8_latency (2-D); full_cost and discrete_cost-at-construction random; optionally the stem '
+                'cost = one of / a dictionary of params, params_no_bias, ops, ops_no_bias, gap8_latency (2-D); full_cost and discrete_cost random at construction AND flipped afterwards (before and after pruning, cost expected for the current flags); a wrapper with autoconvert_layers=False; optionally the stem '
                 'excluded by name; channel masks adversarial / dyadic / minimal / one-dead on every trainable alpha (shared maskers once), a binarized (receptive field, dilation) pattern per '
                 'searchable Conv1d; after the masks are set the specification is re-assigned (same object, new object, dict <-> single, a user dictionary updated in place: name rebound / added / deleted, then the same object assigned again) and one random trainability switch (nothing / train_net_only / train_nas_only / train_net_and_nas / train_features, train_rf, train_dilation off / all on again) before EVERY cost observation, re-specification, re-wrap and export; non-trivial = at least one layer pruned; distinct = (architecture, options, style); plus masker-level continuous k_eff cases')
     # ---- (a) masker level: continuous effective kernel size
@@ -365,10 +415,29 @@ def run(ctx):
             good = [o for o in used if not o['fails']]
             vals = ctx.coq_eval_sharded('nets', ['Plinio.Model.Masks', 'Plinio.Model.PitCost'], '', [coq_case_expr(o) for o in good], shard=12) if good else []
             mism += cg.correspond(ctx, good, [coq_case_expr(o) for o in good], vals, _replay_dict)      # the model GENERATED from the PIT cost source on this run
+            vals_other = ctx.coq_eval_sharded('nets_other', ['Plinio.Model.Masks', 'Plinio.Model.PitCost'], '', [coq_case_expr_other(o) for o in good], shard=12) if good else []
             nskip_cont = 0
-            for o, v in zip(good, vals):
+            for o, v, costs_other in zip(good, vals, vals_other):
                 costs, esizes, numel, (dwc_ok, degen, wf) = v
                 diff = {}
+                # full_cost / discrete_cost changed after construction: the model's cost for the CURRENT flags
+                for rec in o.get('flips', []):
+                    if 'costs' not in rec:
+                        continue
+                    cl = costs if rec['full'] == o['full_cost'] else costs_other
+                    for n, val in rec['costs'].items():
+                        e5 = cl[ORDER.index(n)]
+                        cont, disc, pexp, porig, opencont = [Fraction(a, b) for a, b in [(e5[0], e5[1])] + list(e5[2:])]
+                        ctx.corr += 1
+                        lab = 'after-flags-%s-full=%s-disc=%s:%s' % (rec['phase'], rec['full'], rec['disc'], n)
+                        if rec['phase'] == 'open':
+                            if (val != porig) if rec['disc'] else (not close(val, opencont, REL_CONT)):
+                                diff[lab] = (val, str(porig))
+                        elif rec['disc']:
+                            if val != disc:
+                                diff[lab] = (val, str(disc))
+                        elif o['style'] != 'adv' and val == val and abs(val) < 1e12 and not close(val, cont, REL_CONT):
+                            diff[lab] = (val, str(cont))
                 for n in (ORDER if o['dim'] == 2 else ORDER[:4]):
                     if n not in o['names']:      # single-spec case: the other specs are observed after the switch to a dictionary
                         e5 = costs[ORDER.index(n)]
